@@ -96,7 +96,8 @@ def degenerate_histories():
         [{"op": "slice", "dst": 2, "src": 0, "key": FULL}], [{"op": "slice", "dst": 2, "src": 0, "key": ["slice", 0, 3, None]}],
         [{"op": "slice", "dst": 2, "src": 0, "key": ["slice", None, None, 1]}],
         [{"op": "mask", "dst": 2, "src": 0, "mask": [True, True, True]}], [{"op": "select", "dst": 2, "src": 0, "names": ["a", "b"]}],
-        [{"op": "copy", "dst": 2, "src": 0}], [{"op": "T", "dst": 1, "src": 0}, {"op": "T", "dst": 2, "src": 1}],
+        [{"op": "copy", "dst": 2, "src": 0}], [{"op": "copy", "dst": 2, "src": 0, "how": "py"}], [{"op": "copy", "dst": 2, "src": 0, "how": "deep"}],
+        [{"op": "T", "dst": 1, "src": 0}, {"op": "T", "dst": 2, "src": 1}],
         [{"op": "sort", "dst": 2, "src": 0, "by": "a", "rev": False}], [{"op": "sort", "dst": 2, "src": 0, "by": "b", "rev": False}],
         [{"op": "tarith", "dst": 2, "a": 0, "b": ["scalar", 1], "f": "mul"}],
         [{"op": "join", "dst": 2, "L": 0, "R": 0, "kind": "inner_join"}], [{"op": "join", "dst": 2, "L": 0, "R": 0, "kind": "join"}],
@@ -125,6 +126,7 @@ def degenerate_histories():
         [E, {"op": "arith", "dst": 2, "a": 0, "b": ["scalar", 0], "f": "add"}], [{"op": "arith", "dst": 2, "a": 0, "b": ["scalar", 1], "f": "mul"}],
         [{"op": "slice", "dst": 2, "src": 0, "key": FULL}], [{"op": "slice", "dst": 2, "src": 0, "key": ["slice", 0, 3, None]}],
         [{"op": "mask", "dst": 2, "src": 0, "mask": [True, True, True]}], [{"op": "copy", "dst": 2, "src": 0}],
+        [{"op": "copy", "dst": 2, "src": 0, "how": "py"}], [{"op": "copy", "dst": 2, "src": 0, "how": "deep"}],
         [{"op": "sortv", "dst": 2, "src": 0, "rev": False}], [{"op": "fillna", "dst": 2, "a": 0, "val": 0}],
         [{"op": "unary", "dst": 1, "a": 0}, {"op": "unary", "dst": 2, "a": 1}], [{"op": "sharevec", "dst": 2, "src": 0}],
         [{"op": "tabfrom", "dst": 1, "srcs": [0], "form": "list"}, {"op": "getcol", "dst": 2, "t": 1, "j": 0, "how": "cols"}],
